@@ -9,6 +9,8 @@
 //     float operation is exact; the Lean model of the method runs at Rat; outputs must be equal.
 //   - bits kinds (sphereb planeb cylb capb trib seg2b rectb): arbitrary doubles; the same generic
 //     Lean model runs at Float in the same operation order; outputs must be bit-identical.
+//   - box / segment / triangle / ball queries of segments, triangles, mesh colliders and profile colliders
+//     (rect2x mseg2x msegx tritrix mtritrix profballx: c07_query.go).
 //   - residual ("hit lies on the surface", "unit outward normal") and parity-vs-Contains checks
 //     are PropFail predicates; for torus/cone (polynomial root finder) they only validate.
 package main
@@ -398,4 +400,5 @@ func run(c *hlib.Ctx) {
 	runBits(c, n)
 	runBall(c, n)
 	runXfBall(c, n)
+	runQueries(c, n)
 }
